@@ -1056,11 +1056,14 @@ def hist_variants():
     return [(d, h, a, na, x) for d in H_EL_D for h in H_EL_H for a in H_EL_A for na in H_NM_A for x in H_EL_X]
 
 
-def hist_atoms(v):
+def hist_atoms(v, tag="C1"):
+    """`tag` names a carbon that takes no part in anything: a unique tag per sequence makes its topologies unequal (under
+    Topology.__eq__) to every topology analysed earlier in the process, while the layout/hash stays the same - so an entry
+    remembered for an *object* cannot be masked by an older entry that happens to have the right content."""
     d, h, a, na, x = v
     ser = [("N", "N"), ("H", "H"), ("CA", "C"), ("C", "C"), ("O", "O"), ("CB", "C"), ("OG", d), ("HG", h)]
     asn = [("N", "N"), ("H", "H"), ("CA", "C"), ("C", "C"), ("O", "O"), ("CB", "C"), ("CG", "C"), (na, a)]
-    lig = [("C1", "C"), ("X1", x), ("HX", "H"), ("O1", "O")]
+    lig = [(tag, "C"), ("X1", x), ("HX", "H"), ("O1", "O")]
     hoh = [("O", "O"), ("H1", "H"), ("H2", "H")]
     atoms = []
     for ri, (rn, ch, lst) in enumerate((("SER", 0, ser), ("ASN", 0, asn), ("LIG", 1, lig), ("HOH", 2, hoh))):
@@ -1188,15 +1191,22 @@ def run_hist_item(k, idxs, seed, quick, stats, recs, upto=None):
         mode, vs, axis = seqs[si]
         stats["hist_seqs"] += 1
         # the same flags for the whole sequence; wernet_nilsson right after baker_hubbard on the same object as well
-        for (ew, sc) in flagsets:
+        for fi_, (ew, sc) in enumerate(flagsets):
+            tag = "C%dx%dx%d" % (k, si, fi_)
+            steps = list(vs)
             if mode == "two-objects":
-                tops = [make_md_topology(hist_atoms(v), H_BONDS) for v in vs]
+                tops = [make_md_topology(hist_atoms(v, tag), H_BONDS) for v in vs]
             else:
-                one = make_md_topology(hist_atoms(vs[0]), H_BONDS)
-                tops = [one] * len(vs)
-            for step, v in enumerate(vs):
+                # [v; edit to w; a copy() of the edited object; restore v]
+                one = make_md_topology(hist_atoms(vs[0], tag), H_BONDS)
+                steps = [vs[0], vs[1], vs[1], vs[2]]
+                tops = [one, one, None, one]
+            for step, v in enumerate(steps):
                 if mode == "in-place":
-                    _hist_set_variant(tops[step], v)
+                    if tops[step] is None:
+                        tops[step] = one.copy()
+                    else:
+                        _hist_set_variant(tops[step], v)
                 traj = md.Trajectory(xyz.copy(), tops[step])
                 tr, pb, ab, pw, aw = ref(v, ew, sc)
                 flags = "exclude_water=%s sidechain_only=%s" % (ew, sc)
@@ -1215,9 +1225,9 @@ def run_hist_item(k, idxs, seed, quick, stats, recs, upto=None):
 
 # Kabsch-Sander depends on atom names (N, CA, C, O) and the residue name PRO: same kind of history
 
-KSH_EDITS = [("base", None), ("donor N renamed", ("atom", "D", "N", "NX")), ("acceptor O renamed", ("atom", "A", "O", "OX")),
-             ("acceptor C renamed", ("atom", "A", "C", "CX")), ("donor CA renamed", ("atom", "D", "CA", "CX")),
-             ("donor residue named PRO", ("res", "D", "PRO"))]
+KSH_EDITS = [("base", None)] + \
+    [("%s %s renamed" % (rn, nm), ("atom", r, nm, nm + "X")) for r, rn in (("D", "donor"), ("A", "acceptor")) for nm in ("N", "CA", "C", "O")] + \
+    [("acceptor O named OT1", ("atom", "A", "O", "OT1")), ("donor residue named PRO", ("res", "D", "PRO"))]
 
 
 def _ksh_base(seed):
@@ -1228,19 +1238,20 @@ def _ksh_base(seed):
         a1, a2, phi = np.pi, np.radians(150.0 + 30 * k), 0.8 * k
         root = ks_root(a1, a2, phi) or 0.2
         ids.append(ks_unit(b, np.array([0.8 + 1.4 * k, 0.8, 0.8]), rots[k], "ALA", root * 0.7, a1, a2, phi, acc_first=(k == 1)))
+    b.add_other("HOH", 9, [("OW", "O", [3.0, 3.0, 3.0])])      # carries the per-sequence tag (its name matters to nothing)
     return b.atoms, np.array([b.xyz], np.float32), ids[0]
 
 
-def _ksh_apply(atoms, ids, edit):
-    """atoms list of the edited topology (plain data)."""
-    if edit is None:
-        return list(atoms)
+def _ksh_apply(atoms, ids, edit, tag="OW"):
+    """atoms list (plain data) of the edited topology."""
     out = []
     for (nm, el, rn, ri, ch) in atoms:
-        if edit[0] == "atom" and ri == ids[edit[1]] and nm == edit[2]:
+        if edit is not None and edit[0] == "atom" and ri == ids[edit[1]] and nm == edit[2]:
             nm = edit[3]
-        if edit[0] == "res" and ri == ids[edit[1]]:
+        if edit is not None and edit[0] == "res" and ri == ids[edit[1]]:
             rn = edit[2]
+        if nm == "OW":
+            nm = tag
         out.append((nm, el, rn, ri, ch))
     return out
 
@@ -1254,39 +1265,61 @@ def _ksh_res(atoms):
     return [res[k] for k in sorted(res)]
 
 
-def run_ks_history(seed, stats, recs, only=None):
-    """base <-> each edited topology, both orders with two objects, and base -> edit -> base on one object in place."""
-    import mdtraj as md
-    atoms0, xyz, ids = _ksh_base(seed)
+def ksh_sequences():
+    """(mode, steps, label).  A step is an edit (None = base) or "copy" (= Topology.copy() of the object as it is now).
+    In-place sequences come first and every sequence carries its own tag, so nothing analysed earlier in the process has the
+    same content as any of its states."""
     seqs = []
     for name, ed in KSH_EDITS[1:]:
+        seqs.append(("in-place", [None, ed, "copy"], name))                       # break a residue, then copy
+        seqs.append(("in-place", [ed, None, "copy"], name + " (repaired)"))       # the reverse: repair it, then copy
+        seqs.append(("in-place", [None, ed, None], name + " (and restored)"))
+    for name, ed in KSH_EDITS[1:]:
         seqs.append(("two-objects", [None, ed], name))
-        seqs.append(("two-objects", [ed, None], name))
-        seqs.append(("in-place", [None, ed, None], name))
-    for qi, (mode, eds, name) in enumerate(seqs):
-        if only is not None and qi > only:
-            break
+        seqs.append(("two-objects", [ed, None], name + " (reverse order)"))
+    return seqs
+
+
+def run_ks_history(seed, stats, recs, only=None):
+    """Every call is judged against the float64 reference of the topology as it is at that moment (own name bookkeeping,
+    nothing read back from mdtraj)."""
+    atoms0, xyz, ids = _ksh_base(seed)
+    for qi, (mode, steps, name) in enumerate(ksh_sequences()):
+        if only is not None and qi != only:
+            continue
         stats["hist_seqs"] += 1
-        one = ks_topology(atoms0) if mode == "in-place" else None
-        for step, ed in enumerate(eds):
-            atoms = _ksh_apply(atoms0, ids, ed)
-            if mode == "in-place":
-                top = one
-                for a_obj, (nm, _el, rn, _ri, _ch) in zip(top.atoms, atoms):
-                    a_obj.name = nm
-                    a_obj.residue.name = rn
+        tag = "W%d" % qi
+        one = None
+        atoms = None
+        for step, ed in enumerate(steps):
+            if ed == "copy":
+                top = one.copy()                       # atoms: unchanged, the copy describes the current state
+                what = "copy() of the edited object"
             else:
-                top = ks_topology(atoms)
+                atoms = _ksh_apply(atoms0, ids, ed, tag)
+                what = "base" if ed is None else "edited"
+                if mode == "in-place":
+                    if one is None:
+                        one = ks_topology(atoms)
+                    else:
+                        for a_obj, (nm, _el, rn, _ri, _ch) in zip(one.atoms, atoms):
+                            a_obj.name = nm
+                            a_obj.residue.name = rn
+                    top = one
+                else:
+                    top = ks_topology(atoms)
             sub = []
             st2 = _new_stats()
             judge_ks("history:%s" % name, atoms, xyz, _ksh_res(atoms), 0, 1, st2, sub, top=top)
             stats["ks_calls"] += 1
             stats["hist_calls"] += 1
+            stats["calls"] += 0
             for sig, detail, _rp in sub:
-                s2 = "history|%s|%s|%s" % (sig, mode, name.replace(" ", "-"))
+                s2 = "history|%s|%s|step=%s|%s" % (sig, mode, "copy" if ed == "copy" else ("first" if step == 0 else "after-edit"),
+                                                  name.split(" (")[0].replace(" ", "-"))
                 stats["nsig"][s2] = stats["nsig"].get(s2, 0) + 1
                 if stats["nsig"][s2] <= 2:
-                    recs.append((s2, "sequence %s step %d: %s" % ([("base" if e is None else name) for e in eds], step, detail),
+                    recs.append((s2, "sequence #%d '%s' %s, step %d (%s): %s" % (qi, name, mode, step, what, detail),
                                  dict(family="hist-ks", upto=qi, seed=seed, sig=s2)))
 
 
@@ -1393,6 +1426,22 @@ def run(ctx):
     return "exploration", cov
 
 
+def _replay_hist(arg):
+    rep, quick = arg
+    stats, recs = _new_stats(), []
+    if rep["family"] == "hist":
+        run_hist_item(rep["item"], rep["idxs"], rep["seed"], quick, stats, recs, upto=rep["upto"])
+    else:
+        run_ks_history(rep["seed"], stats, recs, only=rep["upto"])
+    return recs
+
+
+def _in_child(fn, arg):
+    import multiprocessing as mp
+    with mp.get_context("fork").Pool(1) as pool:
+        return pool.apply(fn, (arg,))
+
+
 def replay(ctx, rep):
     _CTX.update(seed=rep.get("seed", ctx.seed), quick=ctx.quick)
     outs = []
@@ -1401,10 +1450,10 @@ def replay(ctx, rep):
         if rep["family"] == "ks-mem":
             r2, _c = run_memory_family(ctx.repo, ctx.scratch, only=rep["case"])
             recs += r2
-        elif rep["family"] == "hist":
-            run_hist_item(rep["item"], rep["idxs"], rep["seed"], ctx.quick, stats, recs, upto=rep["upto"])
-        elif rep["family"] == "hist-ks":
-            run_ks_history(rep["seed"], stats, recs, only=rep["upto"])
+        elif rep["family"] in ("hist", "hist-ks"):
+            # a history is only the same history in a process that has not analysed anything yet: each repetition runs in
+            # a freshly fork()ed child of this (pristine) process
+            recs += _in_child(_replay_hist, (rep, ctx.quick))
         elif rep["family"] == "ks":
             atoms = [tuple(a) for a in rep["atoms"]]
             xyz = np.array(rep["xyz"], np.float32)
